@@ -12,3 +12,11 @@ use crate::shims::scursor::WriteCursor;
 //@|        r matches Err(RequestError::Exception(e)) ==> msg.ser_exc(e),
 //@|        r is Err ==> (r->Err_0 is Exception || r->Err_0 is Internal || (r->Err_0 is BadRequest && msg.ser_may_reject())),
 //@entry| broadcast use crate::shims::scursor::lemma_subrange_update_outside;
+
+// ---- C07 / C20: frame-level decoding (logging) of an MBAP frame: header fields and, at payload level, the hex dump
+//@item rodbus/src/tcp/frame.rs | MbapDisplay
+impl<'a> MbapDisplay<'a> {
+//@fn rodbus/src/tcp/frame.rs | MbapDisplay<'a>::new | tags=C07,C20
+//@|    ensures r.level == level, r.header == header, r.bytes@ == bytes@,
+//@fn rodbus/src/tcp/frame.rs | std::fmt::Display for MbapDisplay<'a>::fmt | tags=C07,C20 | inherent r28
+}
